@@ -38,7 +38,8 @@ func Spec() *run.Spec {
 			"large: one case = one array of n points (n in {4095, 4096, 4097, 8191, 8192, 8193, 10000, 12289, 16385, 32769, 65537, random 9k-120k}) pushed through all 13 array-, mesh- and box-level entry points, every element checked. " +
 			"Signature = generator kinds x magnitude decades x structural flags.",
 		Assumptions: []string{
-			"inputs are finite; quaternions used as rotations are unit (built by FromTheta, Normalize, RotationTo or Identity); RotationTo is given unit vectors",
+			"inputs are finite; quaternions used as rotations are unit (built by FromTheta, Normalize, RotationTo or Identity); RotationTo is given unit vectors (its formula, taken from gl-matrix, is only a rotation for unit input: RotationTo((2,0,0),(0,2,0)) is not a quarter turn)",
+			"axis-angle constructors are held to the law for axis magnitudes whose squared length is a normal finite double (largest component in [1e-150, 1e150]); outside, the delivered tree returns NaN (< ~1e-162), an inaccurate axis (~1e-161..1e-155) or a non-unit quaternion (> ~1.3e154): counted as axis_underflow_* / axis_overflow_* observations, flagged only with strictAxisRange",
 			"inside RotationTo's snap band |from.to| > 1-1e-6 (inherited from gl-matrix) the result is only required to be as close to the target as the snapped (anti)parallel direction, i.e. within sqrt(2e-6) ~ 1.4e-3; outside the band the tolerance is 1e-9",
 			"inverse laws are evaluated for matrices whose determinant is not lost to cancellation (sum of |terms| / |det| <= 1e6), with an a-posteriori rounding bound of the cofactor formula times 64 as tolerance",
 			"AABB containment is judged with a slack of a few ulps of the largest coordinate involved per encapsulation step (the box is stored as centre/extents, so min/max are re-derived with rounding)",
@@ -56,6 +57,10 @@ func Spec() *run.Spec {
 			"mesh_positions":           1000,
 			"aabb_grow_steps":          1000,
 			"retained_results":         5000,
+			"axis_magnitude_decades":   10,
+			"axis_angle_far_from_unit": 1000,
+			"vector_magnitude_decades": 12,
+			"trs_scale_exactly_zero":   100,
 			"retained_entry_points":    9,
 			"large_cases":              12,
 			"large_entry_points":       13,
@@ -111,13 +116,62 @@ func perpUnit(r *rand.Rand, a v3) v3 {
 
 func pow10(k int) float64 { return math.Pow(10, float64(k)) }
 
+var negZero = math.Copysign(0, -1)
+
+// scaledUnit normalises v without forming squares that under- or overflow.
+func scaledUnit(v v3) v3 {
+	m := vmaxabs(v)
+	if m == 0 || math.IsInf(m, 0) || math.IsNaN(m) {
+		return v3{math.NaN(), math.NaN(), math.NaN()}
+	}
+	// scale by a power of two (exact) so that the largest component is in [1,2)
+	_, e := math.Frexp(m)
+	w := v3{math.Ldexp(v[0], 1-e), math.Ldexp(v[1], 1-e), math.Ldexp(v[2], 1-e)}
+	n := math.Sqrt(w[0]*w[0] + w[1]*w[1] + w[2]*w[2])
+	return v3{w[0] / n, w[1] / n, w[2] / n}
+}
+
+// axisDomain classifies the axis handed to an axis-angle constructor: "ok" when the
+// sum of the squares of its components is a normal, finite double.
+func axisDomain(v v3) string {
+	m := vmaxabs(v)
+	switch {
+	case m < 1e-150:
+		return "underflow"
+	case m > 1e150:
+		return "overflow"
+	}
+	return "ok"
+}
+
 // genVec draws a vector; kind tells how.
 func genVec(r *rand.Rand, loDec, hiDec int) (v3, string) {
 	s := pow10(loDec+r.Intn(hiDec-loDec+1)) * (1 + 9*r.Float64())
-	switch r.Intn(10) {
+	switch r.Intn(11) {
+	case 10: // components that are exactly +0 or -0
+		v := vscale(randUnit(r), s)
+		for i := range v {
+			switch r.Intn(4) {
+			case 0:
+				v[i] = 0
+			case 1:
+				v[i] = negZero
+			}
+		}
+		if v == (v3{}) {
+			v[r.Intn(3)] = s
+		}
+		return v, "signed-zero"
 	case 0: // along a coordinate axis
 		var v v3
 		v[r.Intn(3)] = s * float64(1-2*r.Intn(2))
+		if r.Intn(2) == 0 { // the other components -0
+			for i := range v {
+				if v[i] == 0 {
+					v[i] = negZero
+				}
+			}
+		}
 		return v, "axis"
 	case 1: // in a coordinate plane
 		u := randUnit(r)
@@ -135,38 +189,92 @@ func genVec(r *rand.Rand, loDec, hiDec int) (v3, string) {
 }
 
 type gQuat struct {
-	q     quaternion.Quaternion
-	kind  string
-	axis  v3      // unit axis (kind theta)
-	theta float64 // (kind theta)
+	q       quaternion.Quaternion
+	kind    string
+	axis    v3      // unit axis: the axis handed over, normalised by scaledUnit (kind theta)
+	given   v3      // the axis handed over
+	axisDec int     // its decade
+	theta   float64 // (kind theta)
 }
 
-var specialAngles = []float64{0, math.Pi / 2, math.Pi, -math.Pi, 2 * math.Pi, -math.Pi / 2, 1e-8, math.Pi - 1e-8, math.Pi / 3, 3 * math.Pi}
+// rotation returns the reference rotation matrix: Rodrigues' formula about the
+// normalised axis when the quaternion came from an axis and an angle (independent of
+// anything polyform computed), else the matrix of the quaternion's components.
+func (g gQuat) rotation() m3 {
+	if g.axis == (v3{}) {
+		return quatMatrix(qOf(g.q))
+	}
+	k := g.axis
+	c, s := math.Cos(g.theta), math.Sin(g.theta)
+	return m3{
+		{c + k[0]*k[0]*(1-c), k[0]*k[1]*(1-c) - k[2]*s, k[0]*k[2]*(1-c) + k[1]*s},
+		{k[1]*k[0]*(1-c) + k[2]*s, c + k[1]*k[1]*(1-c), k[1]*k[2]*(1-c) - k[0]*s},
+		{k[2]*k[0]*(1-c) - k[1]*s, k[2]*k[1]*(1-c) + k[0]*s, c + k[2]*k[2]*(1-c)},
+	}
+}
+
+var specialAngles = []float64{0, negZero, math.Pi / 2, math.Pi, -math.Pi, 2 * math.Pi, -2 * math.Pi, -math.Pi / 2, 1e-8, math.Pi - 1e-8, math.Pi / 3, 3 * math.Pi,
+	4 * math.Pi, 1e6, -12345678.9, 1e15, math.Ldexp(math.Pi, 30)}
+
+// genAxisAngle builds FromTheta(theta, axis) with the axis magnitude anywhere in the double range
+// (decades lo..hi, log-uniform), including axes with subnormal components.
+func genAxisAngle(r *rand.Rand, lo, hi int) gQuat {
+	axis := randUnit(r)
+	kind := "theta"
+	switch r.Intn(6) {
+	case 0:
+		axis = v3{}
+		axis[r.Intn(3)] = float64(1 - 2*r.Intn(2))
+		if r.Intn(2) == 0 {
+			for i := range axis {
+				if axis[i] == 0 {
+					axis[i] = negZero
+				}
+			}
+		}
+		kind = "theta-axis"
+	case 1: // one dominant component, the others many decades below
+		axis = v3{axis[0], axis[1] * 1e-12, axis[2] * 1e-25}
+		kind = "theta-skewaxis"
+	}
+	theta := (r.Float64()*2 - 1) * 4 * math.Pi
+	if r.Intn(4) == 0 {
+		theta = specialAngles[r.Intn(len(specialAngles))]
+		kind += "-special"
+	}
+	// the axis handed over is deliberately not unit: the constructor normalises
+	sc, dec := 1., 0
+	switch r.Intn(4) {
+	case 0:
+	case 1:
+		dec = r.Intn(7) - 3
+		sc = pow10(dec) * (1 + r.Float64())
+		kind += "-nonunit"
+	default:
+		dec = lo + r.Intn(hi-lo+1)
+		sc = pow10(dec) * (1 + 8*r.Float64())
+		kind += "-farunit"
+	}
+	given := vscale(axis, sc)
+	if math.IsInf(vmaxabs(given), 0) {
+		given = vscale(axis, 1e300)
+	}
+	g := gQuat{kind: kind, given: given, axisDec: decade(vmaxabs(given)), theta: theta}
+	g.axis = scaledUnit(given)
+	g.q = quaternion.FromTheta(theta, given.vec())
+	return g
+}
 
 // genQuat builds a unit quaternion through one of polyform's constructors.
 func genQuat(r *rand.Rand) gQuat {
 	switch k := r.Intn(20); {
 	case k < 11:
-		axis := randUnit(r)
-		kind := "theta"
-		switch r.Intn(6) {
-		case 0:
-			axis = v3{}
-			axis[r.Intn(3)] = float64(1 - 2*r.Intn(2))
-			kind = "theta-axis"
+		// axis magnitudes over the whole range in which |axis|^2 is a normal double
+		for {
+			if g := genAxisAngle(r, -149, 149); axisDomain(g.given) == "ok" {
+				return g
+			}
 		}
-		theta := (r.Float64()*2 - 1) * 4 * math.Pi
-		if r.Intn(5) == 0 {
-			theta = specialAngles[r.Intn(len(specialAngles))]
-			kind += "-special"
-		}
-		// the axis handed over is deliberately not unit: FromTheta normalises
-		sc := 1.
-		if r.Intn(3) > 0 {
-			sc = pow10(r.Intn(7)-3) * (1 + r.Float64())
-			kind += "-nonunit"
-		}
-		return gQuat{q: quaternion.FromTheta(theta, vscale(axis, sc).vec()), kind: kind, axis: axis, theta: theta}
 	case k < 15:
 		var c q4
 		for {
